@@ -41,7 +41,8 @@ def gen(ctx, count):
                 sign = 1
             for a2 in rows:
                 spec["prb"][s][a2][0] = str(F(spec["prb"][s][a2][0]) + sign * delta)
-        out.append({"seed": sub, "spec": spec, "tol": str(tol), "tol_as_int": tol_as_int, "kind": kind})
+        # a third of the cases: the same problem object was already asked for its matrices with LOOSER tolerances (1, then 1/2)
+        out.append({"seed": sub, "spec": spec, "tol": str(tol), "tol_as_int": tol_as_int, "kind": kind, "pre_tols": [1.0, 0.5] if rng.random() < 0.34 else []})
     return out
 
 
@@ -120,7 +121,7 @@ def coq_item(c, r, k):
 
 def run(ctx, build):
     cs = gen(ctx, 60 if ctx.tier == "quick" else 1200)
-    res = core.run_workers(ctx, [{"kind": "build_matrices", "problem": c["spec"], "tol": (0 if c.get("tol_as_int") else solverun.fl(c["tol"]))} for c in cs])
+    res = core.run_workers(ctx, [{"kind": "build_matrices", "problem": c["spec"], "tol": (0 if c.get("tol_as_int") else solverun.fl(c["tol"])), "pre_tols": c.get("pre_tols", [])} for c in cs])
     corr, viols, items, meta = [], [], [], []
     kinds = {}
     for c, r in zip(cs, res):
@@ -153,7 +154,7 @@ def run(ctx, build):
 
 def search(ctx, build, res, time_budget=60):
     cs = gen(ctx, 40)
-    rr = core.run_workers(ctx, [{"kind": "build_matrices", "problem": c["spec"], "tol": (0 if c.get("tol_as_int") else solverun.fl(c["tol"]))} for c in cs])
+    rr = core.run_workers(ctx, [{"kind": "build_matrices", "problem": c["spec"], "tol": (0 if c.get("tol_as_int") else solverun.fl(c["tol"])), "pre_tols": c.get("pre_tols", [])} for c in cs])
     for c, r in zip(cs, rr):
         why = oracle(c, r)
         if why:
@@ -166,6 +167,6 @@ def replay(ctx, build, data):
     if not inp:
         return {"fails": False, "note": "no concrete input"}
     c = inp["case"]
-    r = core.run_workers(ctx, [{"kind": "build_matrices", "problem": c["spec"], "tol": (0 if c.get("tol_as_int") else solverun.fl(c["tol"]))}])[0]
+    r = core.run_workers(ctx, [{"kind": "build_matrices", "problem": c["spec"], "tol": (0 if c.get("tol_as_int") else solverun.fl(c["tol"])), "pre_tols": c.get("pre_tols", [])}])[0]
     why = oracle(c, r)
     return {"fails": bool(why), "why": why}
